@@ -490,6 +490,20 @@ func describeValue(v ssa.Value) string {
 }
 
 func init() {
+	extend("C01", "(P01-headline-blanks) every look at the headline is taken after the blanks in front of the cursor were skipped, so that additional blanks between date, should-total and end of line are accepted as the specification allows. Also (P16-ampm): every hour of the 12-hour clock is read as the time it denotes.", ruleP01HeadlineBlanks, ruleP16AmPm)
+	extend("C04", "Also (P16-ampm): the time a command writes in the 12-hour notation is the literal that reads back to that time — a start written as `12:30am` for half past noon is an entry twelve hours off.", ruleP16AmPm)
+	extend("C06", "(P06-comma-ok) the value of a (value, found) function that hands back nil when nothing was found is used only where `found` holds.", ruleP06CommaOk)
+	extend("C16", "(P16-range-validity) whether two times form a range is decided by the range constructor alone; no other function of the value package refuses a pair of times on a comparison of its own.", ruleP16RangeValidity)
+	extend("C15", "(P15-week-bound) NewWeekFromString steps towards the week asked for only when that week exists in the year (1 … the week of December 28th), so that no pattern makes the step leave the calendar.", ruleP15WeekBound)
+	extend("C02", "Also (P20-fields): in the JSON output a record's total, should-total and diff are computed from the very record whose entries are listed under it, each entry view built afresh from that record's entries.", ruleP20Fields)
+	extend("C11", "Also (P13-decoders): the --date / --time / duration decoders hand on the very value the parser returned — with the notation the user typed, which the written value keeps.", ruleP13Decoders)
+	extend("C12", "Also (P17-clock-fields): the calendar day `today` splits by is read from the unconverted clock value, like the time of day.", ruleP17ClockFields)
+	extend("C17", "Also (P16-plus): Time.Plus builds its result through the one range-checked constructor, so a shift beyond `>` is refused rather than written.", ruleP16Plus)
+	extend("C14", "Also (P20-tags): the tag list of the JSON output is exactly what TagSet.ToStrings produced — nothing merged or dropped by a further, differently-cased comparison.", ruleP20Tags)
+	extend("C20", "Also (P13-sortflag): every accepted spelling of --sort is compared in the case the enum admits.", ruleP13SortFlag)
+	extend("C20", "(P20-input-order) the record list of several input files is built in ReadInputs' own control flow, file by file — not in goroutines or from a channel, which would order it by completion.", ruleP20InputOrder)
+	extend("C07", "Also (P20-input-order): with several CPUs the inputs are still put together in the order given. (P06-runewidth) the block parser advances by the bytes actually consumed, not by the re-encoded width of the decoded rune: a worker whose chunk ends in an invalid byte would otherwise fail where the serial parser does not.", ruleP20InputOrder, ruleP06RuneWidth)
+	extend("C06", "Also (P01-norecord): on every return of parse and of the parallel merge, records are handed back only when the error list is empty and errors never together with records — the statement's `either records and no errors, or no records and at least one error`.", ruleP01NoRecord)
 	extend("C16", "(P16-zerosign) the sign written in front of a zero duration is recorded exactly for zero values with a written sign, and printed back from that record.", ruleP16ZeroSign)
 	extend("C09", "(P16-zerosign) as under C16: a signed zero keeps its sign through print.", ruleP16ZeroSign)
 	extend("C15", "(P15-weekday) Weekday() is Go's weekday of that very date, renumbered Monday=1…Sunday=7 and nothing else.", ruleP15Weekday)
@@ -518,6 +532,20 @@ func init() {
 	extend("C11", "(P16-ampm) a time generated in the 12-hour notation is written as the am/pm literal that reads back to the same time (otherwise the re-parse safeguard refuses the edit).", ruleP16AmPm)
 	extend("C20", "(P16-ampm, P13-reduce) the start/end notation in the JSON output is Time.ToString; under a tag or entry-type filter a record keeps its should-total.", ruleP16AmPm, ruleP13Reduce)
 	extend("C14", "(P13-translate) every --tag argument reaches the query, as given (same name with different values are different filters).", ruleP13Translate)
+	extend("C06", "(P06-units) a []rune(string) is never cut or indexed under a test of the string's byte length.", ruleP06Units)
+	extend("C02", "(P02-fresh-parse) the records an evaluation works on were parsed in that invocation of ReadInputs.", ruleP02FreshParse)
+	extend("C17", "(P02-fresh-parse, P16-ampm) every redraw of today --follow evaluates freshly parsed records; a generated time in the 12-hour notation is the literal that reads back to it.", ruleP02FreshParse, ruleP16AmPm)
+	extend("C03", "(P03-last-line) the end of the record is where the block's own SignificantLines() end.", ruleP03LastLine)
+	extend("C04", "(P04-first-record, P03-last-line) a date names the first record of that date; the end of a record is the block parser's.", ruleP04FirstRecord, ruleP03LastLine)
+	extend("C12", "(P12-row-labels) the year label of a report row is printed exactly when it differs from the row above.", ruleP12RowLabels)
+	extend("C20", "(P13-sortcopy) --sort orders by the dates themselves, not by their notation.", ruleP13SortCopy)
+	extend("C07", "(P07-renumber-complete) every field of a block that depends on the preceding line count is rewritten when the parallel engine renumbers.", ruleP07RenumberComplete)
+	extend("C03", "(P03-creators-readonly, P07-renumber-complete) creators never reorder or overwrite the shared record/block lists; blocks keep no stale absolute positions.", ruleP03CreatorsReadonly, ruleP07RenumberComplete)
+	extend("C04", "(P03-creators-readonly) as under C03.", ruleP03CreatorsReadonly)
+	extend("C05", "(P05-after-write) util.Reconcile reports a failure only on the failing edge of ReconcileFile: nothing can refuse once the file is written.", ruleP05AfterWrite)
+	extend("C18", "(P18-strip-measure-only) the stripped text is only ever measured, never printed.", ruleP18StripMeasureOnly)
+	extend("C09", "(P18-strip-measure-only) print does not filter the user's text through the escape-sequence remover.", ruleP18StripMeasureOnly)
+	extend("C20", "(P08-io-verbatim) `klog json` renders the text as given: piped input counts as absent only when it is empty.", ruleP08IoVerbatim)
 	extend("C11", "(P11-directive-arg) every reformat directive a command passes to a reconciler is, on every path, the DateFormat/TimeFormat answer of its argument struct.", ruleP11DirectiveArg)
 }
 
@@ -759,6 +787,13 @@ func ruleP18NoMeasureStyled(p *Prog, r *Report) {
 					}
 				case fnBase(g) == "Reflow" && p.inMod(g):
 					what, args = "the line wrapper "+calleeName(c), c.Common().Args[1:]
+				case g.Pkg != nil && g.Pkg.Pkg.Path() == "strings" && len(c.Common().Args) >= 1:
+					// looking INTO the text: what it starts with, contains or splits into depends
+					// on whether (and how) it was coloured
+					switch g.Name() {
+					case "HasPrefix", "HasSuffix", "Contains", "ContainsAny", "ContainsRune", "Index", "IndexByte", "IndexRune", "IndexAny", "LastIndex", "Split", "SplitN", "Fields", "EqualFold", "Count", "Cut", "TrimPrefix", "TrimSuffix":
+						what, args = "strings."+g.Name(), c.Common().Args[:1]
+					}
 				}
 			}
 			if what == "" {
@@ -768,13 +803,47 @@ func ruleP18NoMeasureStyled(p *Prog, r *Report) {
 			idx++
 			for _, a := range args {
 				if tainted(a, 0, map[ssa.Value]bool{}) {
-					r.bad(rule, fmt.Sprintf("%s:sink#%d", fnName(f), idx), p.instrPos(c), "a text that already carries escape sequences is handed to %s: its length counts the invisible bytes, so the layout (padding, wrapping) differs between the colour schemes and the unstyled output", what)
+					r.bad(rule, fmt.Sprintf("%s:sink#%d", fnName(f), idx), p.instrPos(c), "a text that already carries escape sequences is handed to %s: its length and content include the invisible bytes, so the outcome (padding, wrapping, a test of how it begins) differs between the colour schemes and the unstyled output", what)
 					return
 				}
 			}
 		})
 	}
 	r.ok(rule, "sinks", "-", "%d measuring sites examined, none receives a styled text (%d functions return styled text)", n, len(styledFn))
+	// … nor compared or indexed
+	for _, f := range inScope {
+		idx := 0
+		eachInstr(f, func(in ssa.Instruction) {
+			var ops []ssa.Value
+			what := ""
+			switch x := in.(type) {
+			case *ssa.BinOp:
+				switch x.Op {
+				case token.EQL, token.NEQ, token.LSS, token.GTR, token.LEQ, token.GEQ:
+					if isStringish(x.X.Type()) {
+						ops, what = []ssa.Value{x.X, x.Y}, "a comparison"
+					}
+				}
+			case *ssa.Lookup:
+				if isStringish(x.X.Type()) {
+					ops, what = []ssa.Value{x.X}, "an index expression"
+				}
+			}
+			if what == "" {
+				return
+			}
+			idx++
+			for _, a := range ops {
+				if _, isK := a.(*ssa.Const); isK {
+					continue
+				}
+				if tainted(a, 0, map[ssa.Value]bool{}) {
+					r.bad(rule, fmt.Sprintf("%s:inspect#%d", fnName(f), idx), p.instrPos(in), "a text that already carries escape sequences is the operand of %s: the outcome depends on the colour scheme, so the styled and the unstyled output differ in more than escape sequences", what)
+					return
+				}
+			}
+		})
+	}
 	if n < 5 {
 		r.undecided(rule, "floor", "-", "only %d measuring sites found in klog/app", n)
 	}
@@ -803,8 +872,10 @@ func ruleP15WeekReference(p *Prog, r *Report) {
 			r.check(ok, rule, fmt.Sprintf("reference#%d", n), p.instrPos(c), fmt.Sprintf("the reference day (month %d, day %d) lies in the ISO year of its calendar year in every year", m, d), fmt.Sprintf("the reference day of a week pattern (month %s, day %s) does not lie in the ISO week-year YYYY in every year (it must be between January 4th and December 28th): in years in which it belongs to a week of the neighbouring ISO year, YYYY-Www denotes a week of that other year", describeConst(a[1]), describeConst(a[2])))
 		}
 	}
-	if n != 1 {
-		r.undecided(rule, "reference", p.pos(f.Pos()), "expected one reference date in NewWeekFromString, found %d", n)
+	// (every day NewWeekFromString constructs is one whose week number it reads: the day it steps
+	// from, and the December day by which it knows the year's last week)
+	if n < 1 {
+		r.undecided(rule, "reference", p.pos(f.Pos()), "no reference date found in NewWeekFromString")
 	}
 }
 
@@ -878,5 +949,1236 @@ func ruleP07MapParseComplete(p *Prog, r *Report) {
 	}
 	if checked == 0 {
 		r.undecided(rule, "loop", p.pos(mp.Pos()), "the block loop of mapParse (a loop around txt.ParseBlock) was not found")
+	}
+}
+
+// P06-units — a length is tested in the units in which the cut is made. `[]rune(s)` has at most
+// len(s) elements (fewer for every non-ASCII character): slicing or indexing the rune slice under
+// a test of the BYTE length of the string is the unit confusion behind D1 and D9 once more, and
+// here it panics (slice bounds out of range) for non-ASCII text of the right length.
+func ruleP06Units(p *Prog, r *Report) {
+	const rule = "P06-units"
+	n := 0
+	runeSliceOf := func(v ssa.Value) ssa.Value {
+		v = strip(v)
+		if u, ok := v.(*ssa.UnOp); ok && u.Op == token.MUL {
+			if cell := cellOf(u.X); cell != nil {
+				if sts := storesTo(cell); len(sts) == 1 {
+					v = strip(sts[0].val)
+				}
+			}
+		}
+		cv, ok := v.(*ssa.Convert)
+		if !ok {
+			return nil
+		}
+		st, isSlice := cv.Type().Underlying().(*types.Slice)
+		if !isSlice {
+			return nil
+		}
+		if bt, isB := st.Elem().Underlying().(*types.Basic); !isB || bt.Kind() != types.Int32 {
+			return nil
+		}
+		if bt, isB := cv.X.Type().Underlying().(*types.Basic); !isB || bt.Info()&types.IsString == 0 {
+			return nil
+		}
+		return cv.X
+	}
+	for _, f := range p.srcFns {
+		if !p.inMod(f) {
+			continue
+		}
+		idx := 0
+		eachInstr(f, func(in ssa.Instruction) {
+			var x ssa.Value
+			var bounded bool
+			switch s := in.(type) {
+			case *ssa.Slice:
+				x, bounded = s.X, s.High != nil || s.Low != nil
+			case *ssa.IndexAddr:
+				x, bounded = s.X, true
+			case *ssa.Index:
+				x, bounded = s.X, true
+			}
+			if x == nil || !bounded {
+				return
+			}
+			str := runeSliceOf(x)
+			if str == nil {
+				return
+			}
+			n++
+			idx++
+			// the length tests this instruction runs under
+			byteTest := ""
+			for _, g := range guardsOf(in.Block()) {
+				bo, ok := normCmp(g.Cond)
+				if !ok {
+					continue
+				}
+				for _, side := range []ssa.Value{bo.X, bo.Y} {
+					c, _ := callOf(strip(side))
+					if c == nil {
+						continue
+					}
+					if b, isB := c.Common().Value.(*ssa.Builtin); isB && b.Name() == "len" && sameValue(c.Common().Args[0], str) {
+						byteTest = p.instrPos(g.If)
+					}
+				}
+			}
+			r.check(byteTest == "", rule, fmt.Sprintf("%s:runes#%d", fnName(f), idx), p.instrPos(in), "the rune slice is not cut under a test of the string's byte length", "the characters of a string ([]rune) are cut or indexed under a test of its length in BYTES ("+byteTest+"): text with non-ASCII characters has fewer characters than bytes, so the bound can lie beyond the end and the command panics")
+		})
+	}
+	r.ok(rule, "sites", "-", "%d cuts of a []rune(string) examined", n)
+}
+
+// P02-fresh-parse — every evaluation works on records parsed for it: what ReadInputs hands out is,
+// on every path, the result of a Parse call made in this very invocation. Records are mutable
+// (`--now` closes open ranges in place), so records kept from an earlier read would carry the
+// end times of the earlier evaluation into the later one (today --follow).
+func ruleP02FreshParse(p *Prog, r *Report) {
+	const rule = "P02-fresh-parse"
+	n := 0
+	for _, f := range p.implsOf("klog/app", "Context", "ReadInputs") {
+		if pkgPathOfFn(f) != modPath+"/klog/app" {
+			continue
+		}
+		for i, ret := range returnsOf(f) {
+			if len(ret.Results) != 2 || isNilConst(retResult(ret, 0)) {
+				continue
+			}
+			n++
+			key := fmt.Sprintf("%s:return#%d", fnName(f), i)
+			apps, leaves := accWeb(retResult(ret, 0))
+			bad := ""
+			for _, l := range leaves {
+				if !isNilConst(l) {
+					bad = "starts from " + describeValue(l)
+				}
+			}
+			for _, a := range apps {
+				if len(a.Call.Args) < 2 {
+					continue
+				}
+				// (through a local function or private helper that parses one file)
+				for _, rw := range valueRows(a.Call.Args[1], 0, map[ssa.Value]bool{}) {
+					src := strip(rw.val)
+					c, idx := callOf(src)
+					if c == nil || idx != 0 || !c.Common().IsInvoke() || c.Common().Method.Name() != "Parse" || (c.Parent() != a.Parent() && rw.call == nil) {
+						bad = "appends " + describeValue(rw.val) + " at " + p.instrPos(a)
+					}
+				}
+			}
+			if len(apps) == 0 {
+				c, idx := callOf(retResult(ret, 0))
+				if c == nil || idx != 0 || !c.Common().IsInvoke() || c.Common().Method.Name() != "Parse" {
+					bad = "returns " + describeValue(retResult(ret, 0))
+				}
+			}
+			r.check(bad == "", rule, key, p.instrPos(ret), "the records handed out were parsed in this invocation", "ReadInputs hands out records that were not parsed in this invocation ("+bad+"): records are changed in place by --now, so a later evaluation sees the open ranges as the earlier one closed them")
+		}
+	}
+	if n == 0 {
+		r.undecided(rule, "floor", "-", "no record-returning path of the real ReadInputs found")
+	}
+}
+
+// P03-last-line — where a record ends is decided by the block parser's own notion of a blank
+// line: the pointer behind the record's last line is OverallLineIndex(preceding + len(significant))
+// with both numbers from one and the same SignificantLines() call of the block.
+func ruleP03LastLine(p *Prog, r *Report) {
+	const rule = "P03-last-line"
+	f := p.fn("klog/parser/reconciling", "indexOfLastSignificantLine")
+	if !r.anchorFn(rule, f, "reconciling.indexOfLastSignificantLine") {
+		return
+	}
+	for i, ret := range returnsOf(f) {
+		key := fmt.Sprintf("return#%d", i)
+		nm, recv, args, _ := methodCall(retResult(ret, 0))
+		if nm != "OverallLineIndex" || len(args) != 1 || strip(recv) != ssa.Value(f.Params[0]) {
+			r.bad(rule, key, p.instrPos(ret), "the pointer is not the block's OverallLineIndex of a line count")
+			continue
+		}
+		pl := polyOf(args[0])
+		var sig ssa.CallInstruction
+		ok := pl.C == 0 && len(pl.Terms) == 2
+		for k, coef := range pl.Terms {
+			if coef != 1 {
+				ok = false
+				continue
+			}
+			v := pl.leafV[k]
+			// len(significant) or the preceding count
+			if lc, _ := callOf(strip(v)); lc != nil {
+				if b, isB := lc.Common().Value.(*ssa.Builtin); isB && b.Name() == "len" {
+					v = lc.Common().Args[0]
+				}
+			}
+			c, idx := callOf(strip(v))
+			if c == nil || idx > 1 {
+				ok = false
+				continue
+			}
+			if n2, r2, _, _ := methodCallOf(c); n2 != "SignificantLines" || strip(r2) != ssa.Value(f.Params[0]) {
+				ok = false
+				continue
+			}
+			if sig != nil && sig != c {
+				ok = false
+			}
+			sig = c
+		}
+		r.check(ok, rule, key, p.instrPos(ret), "end of record = preceding blank lines + significant lines, as the block itself counts them", "the end of the record is not computed from the block's own SignificantLines() (it is "+pl.String()+"): a whitespace-only line after the record counts as part of it, and lines are inserted below it")
+	}
+}
+
+// P04-first-record — a command that names a date means the FIRST record of that date in the file
+// (records may share a date; `create` always adds one): the search runs upwards from index 0 and
+// stops at the first hit.
+func ruleP04FirstRecord(p *Prog, r *Report) {
+	const rule = "P04-first-record"
+	f := p.fn("klog/parser/reconciling", "NewReconcilerAtRecord")
+	if !r.anchorFn(rule, f, "reconciling.NewReconcilerAtRecord") {
+		return
+	}
+	n := 0
+	for _, g := range plainWithAnons(f) {
+		eachVInstr(g, func(in ssa.Instruction) {
+			c, ok := in.(ssa.CallInstruction)
+			if !ok {
+				return
+			}
+			nm, recv, args, _ := methodCallOf(c)
+			if nm != "IsEqualTo" || len(args) != 1 || recv == nil {
+				return
+			}
+			n2, r2, _, _ := methodCall(recv)
+			if n2 != "Date" || r2 == nil {
+				return
+			}
+			coll := rangeElemOf(r2)
+			n++
+			key := fmt.Sprintf("search#%d", n)
+			if coll == nil {
+				// an element picked with a hand-written index: the index must count up from 0
+				var idxV ssa.Value
+				if u, isU := strip(r2).(*ssa.UnOp); isU {
+					if ia, isIA := u.X.(*ssa.IndexAddr); isIA {
+						idxV = ia.Index
+					}
+				}
+				up := false
+				if ph, isPhi := strip(idxV).(*ssa.Phi); isPhi && idxV != nil {
+					up = true
+					for _, e := range ph.Edges {
+						if k, isK := constInt(e); isK {
+							if k != 0 {
+								up = false
+							}
+							continue
+						}
+						d := polySub(polyOf(e), polyOf(ph))
+						if !(d.isConst() && d.C == 1) {
+							up = false
+						}
+					}
+				}
+				r.check(up, rule, key+":direction", p.instrPos(c), "the records are searched from the first one upwards", "the record of the target date is not searched from the start of the file upwards: with two records of one date the command edits the later one (stop after create no longer finds the open range)")
+			} else {
+				r.ok(rule, key+":direction", p.instrPos(c), "the records are searched in file order (range loop)")
+			}
+			// the search stops at the first hit: from the hit there is no way back to the test
+			var hit *ssa.BasicBlock
+			for _, ref := range *c.Value().Referrers() {
+				if iff, isIf := ref.(*ssa.If); isIf {
+					hit = iff.Block().Succs[0]
+				}
+			}
+			again := hit == nil
+			if hit != nil && reachableFrom(hit, nil)[c.Block()] {
+				again = true
+			}
+			r.check(!again, rule, key+":first-hit", p.instrPos(c), "the search stops at the first record of that date", "the search goes on after a hit: the last record of the date wins, not the first")
+		})
+	}
+	if n != 1 {
+		r.undecided(rule, "search", p.pos(f.Pos()), "expected one date comparison in NewReconcilerAtRecord, found %d", n)
+	}
+}
+
+// P12-row-labels — a report row names its period; a label that is left out means "as in the row
+// above". In every aggregator that prints the year only when it changes, the year cell is printed
+// exactly when the row's year differs from the year remembered from the previous row, and that
+// year is remembered then.
+func ruleP12RowLabels(p *Prog, r *Report) {
+	const rule = "P12-row-labels"
+	n := 0
+	for _, kind := range []string{"day", "week", "month", "quarter"} {
+		f := p.method("klog/app/cli/report", kind+"Aggregator", "OnRowPrefix")
+		if !r.anchorFn(rule, f, kind+"Aggregator.OnRowPrefix") {
+			continue
+		}
+		// the remembered year: a store to a field of the receiver whose value is the row's year
+		isYear := func(v ssa.Value) bool {
+			if nm, _, _, _ := methodCall(v); nm == "Year" {
+				return true
+			}
+			c, idx := callOf(strip(v))
+			if c != nil && idx == 0 {
+				if nm, _, _, _ := methodCallOf(c); nm == "WeekNumber" {
+					return true
+				}
+			}
+			return false
+		}
+		// (the block may live in a helper shared by the aggregators that is handed the year and
+		// the address of the field: its instructions count once per call, with its parameters
+		// standing for that call's arguments)
+		addrField := func(a ssa.Value) (string, bool) {
+			a = strip(a)
+			if fa, ok := a.(*ssa.FieldAddr); ok && strip(fa.X) == ssa.Value(f.Params[0]) {
+				return fieldName(fa), true
+			}
+			return "", false
+		}
+		loadField := func(v ssa.Value) string {
+			if u, ok := plainDeref(v).(*ssa.UnOp); ok && u.Op == token.MUL {
+				if n, ok := addrField(u.X); ok {
+					return n
+				}
+			}
+			if u, ok := strip(v).(*ssa.UnOp); ok && u.Op == token.MUL {
+				if n, ok := addrField(u.X); ok {
+					return n
+				}
+			}
+			return ""
+		}
+		var mem *ssa.Store
+		var memChain []ssa.CallInstruction
+		for _, vi := range virtualInstrs(f) {
+			vi := vi
+			vi.run(func() {
+				if st, ok := vi.in.(*ssa.Store); ok {
+					if _, isF := addrField(st.Addr); isF && isYear(st.Val) {
+						mem, memChain = st, vi.chain
+					}
+				}
+			})
+		}
+		key := kind + ":year"
+		if mem == nil {
+			r.bad(rule, key, p.pos(f.Pos()), "%sAggregator does not remember the year of the row it has just labelled: whether the next row repeats the year cannot depend on it", kind)
+			continue
+		}
+		n++
+		vcall{chain: memChain}.run(func() {
+			fld, _ := addrField(mem.Addr)
+			// the guard of the store (and of the year cell): year != remembered
+			okGuard, extra := false, ""
+			for _, g := range plainGuardsOf(mem.Block()) {
+				bo, ok := g.Cond.(*ssa.BinOp)
+				if ok && (bo.Op == token.NEQ || bo.Op == token.EQL) && (bo.Op == token.NEQ) == g.Pol {
+					f1, f2 := loadField(bo.X), loadField(bo.Y)
+					if (f1 == fld && isYear(bo.Y)) || (f2 == fld && isYear(bo.X)) {
+						okGuard = true
+						continue
+					}
+				}
+				extra = g.Cond.String()
+			}
+			r.check(okGuard && extra == "", rule, key, p.instrPos(mem), "the year is labelled (and remembered) exactly when it differs from the row above", fmt.Sprintf("the year label of the %s report does not depend on exactly 'this row's year differs from the remembered one' (%s): a row can stand under the wrong year", kind, extra))
+			// the year cell is printed in that branch: a cell whose text is made from the year
+			printed := false
+			for _, in := range mem.Block().Instrs {
+				c, ok := in.(ssa.CallInstruction)
+				if !ok {
+					continue
+				}
+				if nm, _, args, _ := methodCallOf(c); (nm == "CellR" || nm == "CellL") && len(args) == 1 {
+					var leaves []ssa.Value
+					catLeaves(args[0], &leaves, 0)
+					for _, l := range leaves {
+						sc, _ := callOf(strip(l))
+						if sc == nil {
+							continue
+						}
+						for _, a := range sc.Common().Args {
+							if isYear(a) {
+								printed = true
+							}
+							if els, isL := sliceLitElems(a); isL {
+								for _, e := range els {
+									if isYear(e) {
+										printed = true
+									}
+								}
+							}
+						}
+					}
+				}
+			}
+			r.check(printed, rule, key+":cell", p.instrPos(mem), "the year cell is printed in that branch", "the year is remembered but its cell is not printed in the same branch")
+		})
+	}
+	if n < 4 {
+		r.undecided(rule, "floor", "-", "expected the four aggregators with a year column, found %d", n)
+	}
+}
+
+// isErrorType: the predeclared error interface, or a named interface that embeds Error() string.
+func isErrorType(t types.Type) bool {
+	if t == nil {
+		return false
+	}
+	if t.String() == "error" {
+		return true
+	}
+	if it, ok := t.Underlying().(*types.Interface); ok {
+		for i := 0; i < it.NumMethods(); i++ {
+			if it.Method(i).Name() == "Error" {
+				return true
+			}
+		}
+	}
+	return false
+}
+
+// P07-renumber-complete — the parallel engine parses blocks with a provisional line numbering
+// and corrects it afterwards with SetPrecedingLineCount (P07-renumber). That correction reaches
+// everything a block keeps about its absolute position: every field of txt.block that
+// ParseBlock fills from its precedingLineCount argument is written again by
+// SetPrecedingLineCount.
+func ruleP07RenumberComplete(p *Prog, r *Report) {
+	const rule = "P07-renumber-complete"
+	pb := p.fn("klog/parser/txt", "ParseBlock")
+	set := p.method("klog/parser/txt", "block", "SetPrecedingLineCount")
+	if !r.anchorFn(rule, pb, "txt.ParseBlock") || !r.anchorFn(rule, set, "txt.(*block).SetPrecedingLineCount") {
+		return
+	}
+	if len(pb.Params) < 2 {
+		r.undecided(rule, "param", p.pos(pb.Pos()), "ParseBlock has no preceding-line-count parameter")
+		return
+	}
+	count := ssa.Value(pb.Params[1])
+	var dependsOn func(v ssa.Value, depth int, seen map[ssa.Value]bool) bool
+	dependsOn = func(v ssa.Value, depth int, seen map[ssa.Value]bool) bool {
+		v = strip(v)
+		if v == count {
+			return true
+		}
+		if depth > 10 || seen[v] {
+			return false
+		}
+		seen[v] = true
+		switch x := v.(type) {
+		case *ssa.BinOp:
+			return dependsOn(x.X, depth+1, seen) || dependsOn(x.Y, depth+1, seen)
+		case *ssa.UnOp:
+			if x.Op == token.MUL {
+				if cell := cellOf(x.X); cell != nil {
+					for _, s := range storesTo(cell) {
+						if dependsOn(s.val, depth+1, seen) {
+							return true
+						}
+					}
+					return false
+				}
+			}
+			return dependsOn(x.X, depth+1, seen)
+		case *ssa.Convert:
+			return dependsOn(x.X, depth+1, seen)
+		case *ssa.Phi:
+			for _, e := range x.Edges {
+				if dependsOn(e, depth+1, seen) {
+					return true
+				}
+			}
+		}
+		return false
+	}
+	positional := map[string]string{}
+	eachInstr(pb, func(in ssa.Instruction) {
+		st, ok := in.(*ssa.Store)
+		if !ok {
+			return
+		}
+		fa, ok := st.Addr.(*ssa.FieldAddr)
+		if !ok || typeNameOf(derefType(fa.X.Type())) != "block" {
+			return
+		}
+		if dependsOn(st.Val, 0, map[ssa.Value]bool{}) {
+			positional[fieldName(fa)] = p.instrPos(st)
+		}
+	})
+	rewritten := map[string]bool{}
+	eachInstr(set, func(in ssa.Instruction) {
+		if st, ok := in.(*ssa.Store); ok {
+			if fa, ok := st.Addr.(*ssa.FieldAddr); ok && strip(fa.X) == ssa.Value(set.Params[0]) {
+				rewritten[fieldName(fa)] = true
+			}
+		}
+	})
+	if len(positional) == 0 {
+		r.undecided(rule, "fields", p.pos(pb.Pos()), "ParseBlock stores nothing that depends on its preceding line count")
+		return
+	}
+	for _, fld := range sortedKeys(positional) {
+		r.check(rewritten[fld], rule, "field:"+fld, positional[fld], "block."+fld+" depends on the preceding line count and is rewritten by SetPrecedingLineCount", "block."+fld+" is computed from the preceding line count when the block is parsed, but SetPrecedingLineCount does not rewrite it: in blocks from the parallel engine it keeps the provisional (batch-relative) position, so whatever reads it works on another line than with the serial parser")
+	}
+}
+
+// P03-creators-readonly — a reconciler creator is handed the records and the blocks of the file
+// as two parallel lists (records[i] was parsed from blocks[i]) that the other creators of the same
+// command see as well: it reads them, it never reorders or overwrites them.
+func ruleP03CreatorsReadonly(p *Prog, r *Report) {
+	const rule = "P03-creators-readonly"
+	n := 0
+	for _, f := range p.srcFns {
+		if !p.inMod(f) || len(f.Params) < 2 {
+			continue
+		}
+		// the Creator shape: (…, []klog.Record, []txt.Block) *reconciling.Reconciler
+		sig := f.Signature
+		if sig.Results().Len() != 1 || typeNameOf(sig.Results().At(0).Type()) != "Reconciler" {
+			continue
+		}
+		var lists []*ssa.Parameter
+		for _, prm := range f.Params {
+			if isSliceOf(prm.Type(), "Record") || isSliceOf(prm.Type(), "Block") {
+				lists = append(lists, prm)
+			}
+		}
+		if len(lists) != 2 {
+			continue
+		}
+		n++
+		bad := ""
+		for _, prm := range lists {
+			// the parameter itself and, when a closure captures it, every load of its cell
+			var uses []ssa.Instruction
+			uses = append(uses, *prm.Referrers()...)
+			for _, ref := range *prm.Referrers() {
+				if st, ok := ref.(*ssa.Store); ok && st.Val == ssa.Value(prm) {
+					if cell, isCell := st.Addr.(*ssa.Alloc); isCell {
+						for _, g := range withAnons(f) {
+							eachInstr(g, func(in ssa.Instruction) {
+								if u, isU := in.(*ssa.UnOp); isU && u.Op == token.MUL && cellOf(u.X) == cell {
+									uses = append(uses, *u.Referrers()...)
+								}
+							})
+						}
+					}
+				}
+			}
+			for _, ref := range uses {
+				switch x := ref.(type) {
+				case ssa.CallInstruction:
+					if g := staticCallee(x); g != nil && g.Pkg != nil && (g.Pkg.Pkg.Path() == "sort" || g.Pkg.Pkg.Path() == "slices") {
+						switch g.Name() {
+						case "Slice", "SliceStable", "Sort", "Stable", "SortFunc", "SortStableFunc", "Reverse":
+							bad = "reorders " + prm.Name() + " in place with " + calleeName(x) + " at " + p.instrPos(x)
+						}
+					}
+				case *ssa.MakeInterface:
+					for _, r2 := range *x.Referrers() {
+						if c2, ok := r2.(ssa.CallInstruction); ok {
+							if g := staticCallee(c2); g != nil && g.Pkg != nil && g.Pkg.Pkg.Path() == "sort" {
+								bad = "reorders " + prm.Name() + " in place with " + calleeName(c2) + " at " + p.instrPos(c2)
+							}
+						}
+					}
+				case *ssa.IndexAddr:
+					for _, r2 := range *x.Referrers() {
+						if st, ok := r2.(*ssa.Store); ok && st.Addr == ssa.Value(x) {
+							bad = "overwrites an element of " + prm.Name() + " at " + p.instrPos(st)
+						}
+					}
+				}
+			}
+		}
+		r.check(bad == "", rule, fnName(f), p.pos(f.Pos()), "the creator only reads the record and block lists", "a reconciler creator "+bad+": records[i] and blocks[i] no longer belong together for the creators that run after it, and the edit lands in another record's lines")
+	}
+	if n < 3 {
+		r.undecided(rule, "floor", "-", "found %d reconciler creators, expected at least 3", n)
+	}
+}
+
+// P05-after-write — once ReconcileFile has returned without an error the file has been written:
+// from there on the command can only succeed. util.Reconcile (through which every mutating
+// command but pause runs) returns a failure only on the failing edge of ReconcileFile; a check
+// of the result that can still refuse belongs in front of the write, not behind it.
+func ruleP05AfterWrite(p *Prog, r *Report) {
+	const rule = "P05-after-write"
+	f := p.fn("klog/app/cli/util", "Reconcile")
+	if !r.anchorFn(rule, f, "util.Reconcile") {
+		return
+	}
+	var rc ssa.CallInstruction
+	for _, vi := range virtualInstrs(f) {
+		if c, ok := vi.in.(ssa.CallInstruction); ok && c.Common().IsInvoke() && c.Common().Method.Name() == "ReconcileFile" && c.Parent() == f {
+			rc = c
+		}
+	}
+	if rc == nil {
+		r.undecided(rule, "call", p.pos(f.Pos()), "util.Reconcile does not call Context.ReconcileFile")
+		return
+	}
+	e := resultOf(rc, 1)
+	if e == nil {
+		r.bad(rule, "error", p.instrPos(rc), "the error of ReconcileFile is discarded")
+		return
+	}
+	n := 0
+	for i, ret := range returnsOf(f) {
+		if !knownNil(ret.Block(), e) {
+			continue
+		}
+		n++
+		r.check(isNilConst(retResult(ret, 0)), rule, fmt.Sprintf("return#%d", i), p.instrPos(ret), "after a successful write the command reports success", "util.Reconcile can still report a failure after ReconcileFile has succeeded, i.e. after the file has been rewritten: the command fails although its edit is on disk")
+	}
+	if n == 0 {
+		r.undecided(rule, "success", p.pos(f.Pos()), "no return on the success edge of ReconcileFile found")
+	}
+}
+
+// P18-strip-measure-only — StripAllAnsiSequences exists to MEASURE styled text (a table cell's
+// width). It is never applied to text that is printed: the user's own text may contain escape
+// sequences, and removing them from the output makes `--no-style` differ from the other ways of
+// switching styling off (and print no longer reproduces the file).
+func ruleP18StripMeasureOnly(p *Prog, r *Report) {
+	const rule = "P18-strip-measure-only"
+	strip0 := p.fn("klog/app/cli/terminalformat", "StripAllAnsiSequences")
+	if !r.anchorFn(rule, strip0, "terminalformat.StripAllAnsiSequences") {
+		return
+	}
+	n := 0
+	for _, f := range p.srcFns {
+		if !p.inMod(f) {
+			continue
+		}
+		for _, c := range callsTo(f, strip0) {
+			n++
+			// every use of the result is a length measurement
+			okUse := c.Value() != nil && len(*c.Value().Referrers()) > 0
+			what := ""
+			if okUse {
+				for _, ref := range *c.Value().Referrers() {
+					cc, isCall := ref.(ssa.CallInstruction)
+					measured := false
+					if isCall {
+						if b, isB := cc.Common().Value.(*ssa.Builtin); isB && b.Name() == "len" {
+							measured = true
+						}
+						if g := staticCallee(cc); g != nil && (g.String() == "unicode/utf8.RuneCountInString" || g.String() == "unicode/utf8.RuneCount") {
+							measured = true
+						}
+					}
+					if _, isDbg := ref.(*ssa.DebugRef); isDbg {
+						measured = true
+					}
+					if !measured {
+						okUse = false
+						what = p.instrPos(ref)
+					}
+				}
+			}
+			r.check(okUse, rule, fmt.Sprintf("%s#%d", fnName(f), n), p.instrPos(c), "the stripped text is only measured", "the text with escape sequences removed is used for something other than measuring its length ("+what+"): sequences that belong to the user's text are removed from what is printed")
+		}
+	}
+	if n == 0 {
+		r.undecided(rule, "floor", "-", "no use of StripAllAnsiSequences found (the table measures cells with it)")
+	}
+}
+
+// inModType: t (or what it points to) is a named type declared in the module under analysis.
+func (p *Prog) inModType(t types.Type) bool {
+	if pt, ok := t.Underlying().(*types.Pointer); ok {
+		t = pt.Elem()
+	}
+	if pt, ok := t.(*types.Pointer); ok {
+		t = pt.Elem()
+	}
+	n, ok := t.(*types.Named)
+	return ok && n.Obj().Pkg() != nil && strings.HasPrefix(n.Obj().Pkg().Path(), modPath)
+}
+
+// P20-input-order — the records of several input files are handed out in the order in which the
+// files were named. Every append that builds the record list ReadInputs returns runs in
+// ReadInputs' own thread of control (not in a function started with `go`) and appends a value
+// that did not arrive over a channel: either of the two makes the order that of completion.
+// Results that workers deposit by index and that are merged afterwards pass.
+func ruleP20InputOrder(p *Prog, r *Report) {
+	const rule = "P20-input-order"
+	n := 0
+	for _, f := range p.implsOf("klog/app", "Context", "ReadInputs") {
+		if pkgPathOfFn(f) != modPath+"/klog/app" {
+			continue
+		}
+		goTargets := map[*ssa.Function]string{}
+		for _, g := range withAnons(f) {
+			eachInstr(g, func(in ssa.Instruction) {
+				st, ok := in.(*ssa.Go)
+				if !ok {
+					return
+				}
+				if t := rawStaticCallee(st); t != nil {
+					goTargets[originFn(t)] = p.instrPos(st)
+				} else if t := funcLiteral(st.Call.Value); t != nil {
+					goTargets[t] = p.instrPos(st)
+				}
+			})
+		}
+		var fromChannel func(v ssa.Value, depth int) bool
+		fromChannel = func(v ssa.Value, depth int) bool {
+			if v == nil || depth > 8 {
+				return false
+			}
+			switch x := v.(type) {
+			case *ssa.UnOp:
+				if x.Op == token.ARROW {
+					return true
+				}
+				if c := cellOf(x.X); c != nil && x.Op == token.MUL {
+					for _, s := range storesTo(c) {
+						if fromChannel(s.val, depth+1) {
+							return true
+						}
+					}
+					return false
+				}
+				return fromChannel(x.X, depth+1)
+			case *ssa.Select:
+				return true
+			case *ssa.Alloc:
+				for _, s := range storesTo(x) {
+					if fromChannel(s.val, depth+1) {
+						return true
+					}
+				}
+			case *ssa.Extract:
+				return fromChannel(x.Tuple, depth+1)
+			case *ssa.Field:
+				return fromChannel(x.X, depth+1)
+			case *ssa.FieldAddr:
+				return fromChannel(x.X, depth+1)
+			case *ssa.Phi:
+				for _, e := range x.Edges {
+					if fromChannel(e, depth+1) {
+						return true
+					}
+				}
+			case *ssa.Slice:
+				return fromChannel(x.X, depth+1)
+			case *ssa.ChangeType:
+				return fromChannel(x.X, depth+1)
+			}
+			return false
+		}
+		for i, ret := range returnsOf(f) {
+			if len(ret.Results) != 2 || isNilConst(retResult(ret, 0)) {
+				continue
+			}
+			n++
+			key := fmt.Sprintf("%s:return#%d", fnName(f), i)
+			apps, _ := accWeb(retResult(ret, 0))
+			bad := ""
+			for _, a := range apps {
+				for h := a.Parent(); h != nil; h = h.Parent() {
+					if at, isGo := goTargets[originFn(h)]; isGo {
+						bad = "the append at " + p.instrPos(a) + " runs in a function started with `go` at " + at
+					}
+				}
+				if len(a.Call.Args) >= 2 && fromChannel(a.Call.Args[1], 0) {
+					bad = "the append at " + p.instrPos(a) + " takes what arrives over a channel"
+				}
+			}
+			r.check(bad == "", rule, key, p.instrPos(ret), "the record list is built in ReadInputs' own control flow, file by file", "the records of several input files are put together in the order in which their parsing completes ("+bad+"), not in the order in which the files were given: json, print and every other output list them differently from run to run")
+		}
+	}
+	if n == 0 {
+		r.undecided(rule, "floor", "-", "no record-returning path of the real ReadInputs found")
+	}
+}
+
+// P15-week-bound — NewWeekFromString reaches the week asked for by stepping (week − w)·7 days
+// from a day in the middle of the year. The step is taken only for a week number that exists in
+// that year: at least 1, and at most the number of the week that contains December 28th (which
+// always lies in the year's last week). Otherwise the step can leave the representable calendar
+// (0000-W00, 9999-W53) and PlusDays panics instead of the pattern being rejected.
+func ruleP15WeekBound(p *Prog, r *Report) {
+	const rule = "P15-week-bound"
+	f := p.fn("klog/service/period", "NewWeekFromString")
+	if !r.anchorFn(rule, f, "period.NewWeekFromString") {
+		return
+	}
+	isParsed := func(v ssa.Value) bool {
+		c, idx := callOf(strip(v))
+		return c != nil && idx == 0 && staticCallee(c) != nil && staticCallee(c).String() == "strconv.Atoi"
+	}
+	isLastWeek := func(v ssa.Value) bool {
+		ex, ok := strip(v).(*ssa.Extract)
+		if !ok || ex.Index != 1 {
+			return false
+		}
+		n, recv, _, _ := methodCall(ex.Tuple)
+		if n != "WeekNumber" {
+			return false
+		}
+		c, idx := callOf(strip(recv))
+		if c == nil || idx != 0 || staticCallee(c) == nil || fnBase(staticCallee(c)) != "NewDate" || len(c.Common().Args) != 3 {
+			return false
+		}
+		m, okM := constInt(c.Common().Args[1])
+		d, okD := constInt(c.Common().Args[2])
+		return okM && okD && m == 12 && d == 28
+	}
+	n := 0
+	for _, g := range withAnons(f) {
+		eachInstr(g, func(in ssa.Instruction) {
+			c, ok := in.(ssa.CallInstruction)
+			if !ok {
+				return
+			}
+			nm, _, args, _ := methodCallOf(c)
+			if nm != "PlusDays" || len(args) != 1 {
+				return
+			}
+			pl := polyOf(args[0])
+			var week ssa.Value
+			for k := range pl.Terms {
+				if isParsed(pl.leafV[k]) {
+					week = strip(pl.leafV[k])
+				}
+			}
+			if week == nil {
+				return
+			}
+			n++
+			gs := guardsOf(c.Block())
+			for h := c.Parent(); h != nil && h != f; h = h.Parent() {
+				if site := soleDirectCall(h); site != nil {
+					gs = append(gs, guardsOf(site.Block())...)
+				}
+			}
+			lower, upper := false, false
+			for _, gd := range gs {
+				bo, ok := gd.Cond.(*ssa.BinOp)
+				if !ok {
+					continue
+				}
+				op, x, y := bo.Op, bo.X, bo.Y
+				if sameValue(y, week) && !sameValue(x, week) {
+					// k OP week  ==  week OP' k
+					x, y = y, x
+					switch op {
+					case token.LSS:
+						op = token.GTR
+					case token.LEQ:
+						op = token.GEQ
+					case token.GTR:
+						op = token.LSS
+					case token.GEQ:
+						op = token.LEQ
+					}
+				}
+				if !sameValue(x, week) {
+					continue
+				}
+				if !gd.Pol {
+					switch op {
+					case token.LSS:
+						op = token.GEQ
+					case token.LEQ:
+						op = token.GTR
+					case token.GTR:
+						op = token.LEQ
+					case token.GEQ:
+						op = token.LSS
+					default:
+						continue
+					}
+				}
+				if k, isK := constInt(y); isK {
+					if (op == token.GEQ && k >= 1) || (op == token.GTR && k >= 0) {
+						lower = true
+					}
+				}
+				if op == token.LEQ && isLastWeek(y) {
+					upper = true
+				}
+			}
+			key := fmt.Sprintf("step#%d", n)
+			r.check(lower, rule, key+":lower", p.instrPos(c), "the step towards the week asked for is taken only for a week number of at least 1", "the step towards the week asked for is taken for week 0 as well: in year 0000 it leaves the calendar and PlusDays panics (0000-W00) instead of the pattern being rejected")
+			r.check(upper, rule, key+":upper", p.instrPos(c), "… and of at most the year's last week (that of December 28th)", "the step towards the week asked for is taken for week numbers beyond the year's last week: in year 9999 it leaves the calendar and PlusDays panics (9999-W53) instead of the pattern being rejected")
+		})
+	}
+	if n == 0 {
+		r.undecided(rule, "step", p.pos(f.Pos()), "no PlusDays step by a multiple of the parsed week number found in NewWeekFromString")
+	}
+}
+
+// P16-range-validity — whether two times form a range is decided in one place, the range
+// constructor (`end is not before start`). No other function of the value package refuses a pair
+// of times on a comparison of its own: a second test that is stricter (or laxer) than the
+// constructor's makes a range valid in one way of producing it (parsing `8:00 - 8:00`) and
+// invalid in another (closing `8:00 - ?` at 8:00).
+func ruleP16RangeValidity(p *Prog, r *Report) {
+	const rule = "P16-range-validity"
+	ctor := p.fn("klog", "NewRangeWithFormat")
+	if !r.anchorFn(rule, ctor, "klog.NewRangeWithFormat") {
+		return
+	}
+	isTimeCmp := func(v ssa.Value) (ssa.CallInstruction, bool) {
+		for {
+			u, ok := v.(*ssa.UnOp)
+			if !ok || u.Op != token.NOT {
+				break
+			}
+			v = u.X
+		}
+		c, ok := v.(*ssa.Call)
+		if !ok {
+			return nil, false
+		}
+		nm, recv, _, _ := methodCallOf(c)
+		if nm != "IsAfterOrEqual" && nm != "IsEqualTo" {
+			return nil, false
+		}
+		tn := typeNameOf(derefType(recv.Type()))
+		return c, tn == "Time" || tn == "time"
+	}
+	nCtor, nOther := 0, 0
+	for _, f := range p.srcFns {
+		if pkgPathOfFn(f) != modPath+"/klog" || len(f.Blocks) == 0 {
+			continue
+		}
+		ei := errResultIndex(f.Signature)
+		if ei < 0 {
+			continue
+		}
+		for i, ret := range returnsOf(f) {
+			if ei >= len(ret.Results) || isNilConst(retResult(ret, ei)) || p.nilnessAt(ret.Block(), retResult(ret, ei), 0) != nnNonNil {
+				continue
+			}
+			for _, g := range guardsOf(ret.Block()) {
+				c, ok := isTimeCmp(g.Cond)
+				if !ok {
+					continue
+				}
+				if sameFn(outermost(f), ctor) {
+					nCtor++
+					continue
+				}
+				nOther++
+				r.bad(rule, fmt.Sprintf("%s:return#%d", fnName(f), i), p.instrPos(c), "%s refuses its operands on a comparison of two times of its own (%s): whether two times form a range is the range constructor's decision alone, and a second test that differs from it makes a range valid or not depending on how it is produced", fnName(f), calleeName(c))
+			}
+		}
+	}
+	r.check(nCtor >= 1, rule, "constructor", p.pos(ctor.Pos()), "the range constructor refuses a pair of times on its comparison", "the range constructor no longer refuses any pair of times")
+	if nOther == 0 {
+		r.ok(rule, "elsewhere", "-", "no other function of the value package refuses a pair of times on a comparison of its own")
+	}
+}
+
+// P06-comma-ok — a module function that hands back (value, found) with a nil value when nothing
+// was found obliges its callers: the value is not used — no method called on it, not passed on,
+// not collected — where `found` is not known to hold. (A nil Record or Entry that travels on
+// crashes the next thing that looks at it.)
+func ruleP06CommaOk(p *Prog, r *Report) {
+	const rule = "P06-comma-ok"
+	// the functions: results (T, bool), T a pointer or interface, some return is (nil, false)
+	givers := map[*ssa.Function]bool{}
+	for _, g := range p.srcFns {
+		res := g.Signature.Results()
+		if res.Len() != 2 || len(g.Blocks) == 0 {
+			continue
+		}
+		if b, ok := res.At(1).Type().Underlying().(*types.Basic); !ok || b.Kind() != types.Bool {
+			continue
+		}
+		switch res.At(0).Type().Underlying().(type) {
+		case *types.Pointer, *types.Interface:
+		default:
+			continue
+		}
+		for _, ret := range returnsOf(g) {
+			if len(ret.Results) != 2 {
+				continue
+			}
+			if k, isK := constBool(ret.Results[1]); isK && !k && isNilConst(ret.Results[0]) {
+				givers[originFn(g)] = true
+			}
+		}
+	}
+	var holds func(cond ssa.Value, ok ssa.Value, depth int) bool
+	holds = func(cond ssa.Value, ok ssa.Value, depth int) bool {
+		if depth > 4 {
+			return false
+		}
+		if cond == ok || sameValue(cond, ok) {
+			return true
+		}
+		if ph, isPhi := cond.(*ssa.Phi); isPhi {
+			// a flag that is `found` on one path and true on the others
+			any := false
+			for _, e := range ph.Edges {
+				if k, isK := constBool(e); isK {
+					if !k {
+						return false
+					}
+					continue
+				}
+				if !holds(e, ok, depth+1) {
+					return false
+				}
+				any = true
+			}
+			return any
+		}
+		return false
+	}
+	n := 0
+	for _, f := range p.srcFns {
+		if len(f.Blocks) == 0 {
+			continue
+		}
+		idx := 0
+		eachInstr(f, func(in ssa.Instruction) {
+			c, isCall := in.(*ssa.Call)
+			if !isCall {
+				return
+			}
+			g := rawStaticCallee(c)
+			if g == nil || !givers[originFn(g)] {
+				return
+			}
+			v, ok := resultOf(c, 0), resultOf(c, 1)
+			if v == nil {
+				return
+			}
+			n++
+			idx++
+			key := fmt.Sprintf("%s<-%s#%d", fnName(f), fnName(originFn(g)), idx)
+			if ok == nil {
+				r.bad(rule, key, p.instrPos(c), "the value of %s is used although its `found` result is thrown away: it is nil when nothing was found", fnName(originFn(g)))
+				return
+			}
+			// the uses of the value, through phis
+			bad := ""
+			seen := map[ssa.Value]bool{}
+			var visit func(x ssa.Value, depth int)
+			visit = func(x ssa.Value, depth int) {
+				if seen[x] || depth > 4 || bad != "" {
+					return
+				}
+				seen[x] = true
+				refs := x.Referrers()
+				if refs == nil {
+					return
+				}
+				for _, ref := range *refs {
+					switch u := ref.(type) {
+					case *ssa.Phi:
+						// safe when `found` holds on every edge over which the value comes in
+						safe := true
+						for i, e := range u.Edges {
+							if e != x {
+								continue
+							}
+							pb := u.Block().Preds[i]
+							known := false
+							for _, gd := range append(append([]Guard{}, guardsOf(pb)...), edgeGuard(pb, u.Block())...) {
+								if gd.Pol && holds(gd.Cond, ok, 0) {
+									known = true
+								}
+							}
+							if !known {
+								safe = false
+							}
+						}
+						if !safe {
+							visit(u, depth+1)
+						}
+						continue
+					case *ssa.Return, *ssa.DebugRef:
+						continue
+					case *ssa.BinOp:
+						continue // a comparison
+					case *ssa.Store:
+						if u.Val != x {
+							continue
+						}
+					}
+					known := false
+					for _, gd := range guardsOf(ref.Block()) {
+						if gd.Pol && holds(gd.Cond, ok, 0) {
+							known = true
+						}
+					}
+					if !known {
+						bad = p.instrPos(ref)
+						return
+					}
+				}
+			}
+			visit(v, 0)
+			r.check(bad == "", rule, key, p.instrPos(c), "the value is used only where `found` holds", "the value handed back by "+fnName(originFn(g))+" is used at "+bad+" without `found` being known to hold: it is nil when nothing was found, and the next method call on it crashes")
+		})
+	}
+	if n < 2 {
+		r.undecided(rule, "floor", "-", "found %d calls of (value, found) functions that hand back nil, expected at least 2", n)
+	}
+}
+
+// runePredicateSet: the runes for which the predicate value v (a module func(rune) bool, a
+// closure, or txt.Is(a, b, …)) holds, as "{' ','\t'}".
+func (p *Prog) runePredicateSet(v ssa.Value) (string, bool) {
+	v = strip(v)
+	switch x := v.(type) {
+	case *ssa.Function:
+		return runeSetOfPredicate(x)
+	case *ssa.MakeClosure:
+		return runeSetOfPredicate(x.Fn.(*ssa.Function))
+	case *ssa.Call:
+		if g := staticCallee(x); g != nil && sameFn(g, p.fn("klog/parser/txt", "Is")) {
+			elems, ok := sliceLitElems(x.Call.Args[0])
+			if !ok {
+				return "", false
+			}
+			var runes []string
+			for _, e := range elems {
+				k, isK := constInt(e)
+				if !isK {
+					return "", false
+				}
+				runes = append(runes, fmt.Sprintf("%q", rune(k)))
+			}
+			sort.Strings(runes)
+			return "{" + strings.Join(dedup(runes), ",") + "}", true
+		}
+	}
+	return "", false
+}
+
+// P01-headline-blanks — "additional spaces MAY appear" between the parts of the headline: every
+// look at the headline (Peek, PeekUntil, RemainingLength) is taken where no blank is left in front
+// of the cursor — the last cursor move before it, on every path, skipped a run of blanks
+// (SkipWhile over space and tab), or the cursor has not moved at all. A look that follows a
+// counted Advance decides on whatever character happens to stand there: a second blank makes a
+// should-total "unrecognised text".
+func ruleP01HeadlineBlanks(p *Prog, r *Report) {
+	const rule = "P01-headline-blanks"
+	_, fam := parseFamily(p)
+	var f *ssa.Function
+	for _, g := range fam {
+		eachInstr(g, func(in ssa.Instruction) {
+			if c, ok := in.(ssa.CallInstruction); ok {
+				if callee := staticCallee(c); callee != nil && fnBase(callee) == "ErrorUnrecognisedTextInHeadline" {
+					f = g
+				}
+			}
+		})
+	}
+	if f == nil {
+		r.undecided(rule, "anchor", "-", "the function that parses the headline (raises ErrorUnrecognisedTextInHeadline) was not found")
+		return
+	}
+	var h ssa.Value
+	nNew := 0
+	eachInstr(f, func(in ssa.Instruction) {
+		if c, ok := in.(*ssa.Call); ok {
+			if callee := staticCallee(c); callee != nil && fnBase(callee) == "NewParseable" {
+				h = c
+				nNew++
+			}
+		}
+	})
+	if h == nil || nNew != 1 {
+		r.undecided(rule, "headline", p.pos(f.Pos()), "expected one Parseable for the headline, found %d", nNew)
+		return
+	}
+	onH := func(in ssa.Instruction) (string, ssa.CallInstruction) {
+		c, ok := in.(ssa.CallInstruction)
+		if !ok {
+			return "", nil
+		}
+		nm, recv, _, _ := methodCallOf(c)
+		if nm == "" || recv == nil || !(strip(recv) == h || sameValue(recv, h)) {
+			return "", nil
+		}
+		return nm, c
+	}
+	// the last cursor move before instruction index i of block b, on every path
+	type state struct {
+		b *ssa.BasicBlock
+		i int
+	}
+	var lastMoves func(b *ssa.BasicBlock, i int, seen map[*ssa.BasicBlock]bool) map[string]string
+	lastMoves = func(b *ssa.BasicBlock, i int, seen map[*ssa.BasicBlock]bool) map[string]string {
+		out := map[string]string{}
+		for j := i - 1; j >= 0; j-- {
+			nm, c := onH(b.Instrs[j])
+			switch nm {
+			case "SkipWhile":
+				set, ok := p.runePredicateSet(c.Common().Args[len(c.Common().Args)-1])
+				if ok && set == "{' ','\\t'}" {
+					out["skip-blanks"] = p.instrPos(c)
+				} else {
+					out["skip:"+set] = p.instrPos(c)
+				}
+				return out
+			case "Advance":
+				out["advance"] = p.instrPos(c)
+				return out
+			}
+			// the headline handed to another function: not followed
+			if c, ok := b.Instrs[j].(ssa.CallInstruction); ok && nm == "" {
+				for _, a := range c.Common().Args {
+					if strip(a) == h && p.inModFn(rawStaticCallee(c)) && fnBase(rawStaticCallee(c)) != "NewParseable" {
+						out["unknown"] = p.instrPos(c)
+						return out
+					}
+				}
+			}
+		}
+		if len(b.Preds) == 0 {
+			out["none"] = ""
+			return out
+		}
+		for _, pb := range b.Preds {
+			if seen[pb] {
+				continue
+			}
+			seen[pb] = true
+			for k, v := range lastMoves(pb, len(pb.Instrs), seen) {
+				out[k] = v
+			}
+		}
+		return out
+	}
+	n := 0
+	for _, b := range f.Blocks {
+		for i, in := range b.Instrs {
+			nm, c := onH(in)
+			if nm != "Peek" && nm != "PeekUntil" && nm != "RemainingLength" {
+				continue
+			}
+			// only a look that decides something or cuts a token (its value is used)
+			if v, ok := in.(ssa.Value); ok && (v.Referrers() == nil || len(*v.Referrers()) == 0) {
+				continue
+			}
+			n++
+			bad := ""
+			for k, at := range lastMoves(b, i, map[*ssa.BasicBlock]bool{b: false}) {
+				if k != "skip-blanks" && k != "none" {
+					bad = k + " at " + at
+				}
+			}
+			r.check(bad == "", rule, fmt.Sprintf("look#%d:%s", n, nm), p.instrPos(c), "the headline is looked at where no blank is left in front of the cursor", "the headline is looked at ("+nm+") right after a cursor move that does not skip blanks ("+bad+"): an additional blank between the parts of the headline — which the specification allows — is taken for the next part, and the record is rejected or its should-total missed")
+		}
+	}
+	if n < 5 {
+		r.undecided(rule, "floor", p.pos(f.Pos()), "found %d looks at the headline, expected at least 5", n)
 	}
 }
